@@ -75,6 +75,10 @@ def make(shape: Dict[str, Any]) -> Any:
         if 'browser' in doing:
             loop.create_task(aiozc.async_add_service_listener(T1, Listener(cb_log, loop)))
             loop.create_task(aiozc.async_add_service_listener(T2, Listener(cb_log, loop)))
+        if 'raw-listener' in doing:
+            # a record-update listener the application attached itself, and a cached record that runs out after the close
+            zc.record_manager.async_add_listener(RecListener(cb_log, loop), None)
+            zc.cache.async_add_records([VOCAB['A1'].make(15, t0, True)])
         if 'lookup' in doing:
             info = AsyncServiceInfo(T1, 'Gamma._http._tcp.local.')
             user_tasks.append(loop.create_task(info.async_request(zc, 3000)))
@@ -90,7 +94,12 @@ def make(shape: Dict[str, Any]) -> Any:
             m = mk_query(loop.now_ms, [Q(T1, PTR)], [], ('10.0.0.7', 5353), truncated=True, data=b'tc')
             proto.handle_query_or_defer(m, '10.0.0.7', 5353, proto.transport, ())
         close_at = loop.now_ms + ctx.int('close_offset', 0, close_max)
-        loop.advance_to(close_at)
+        if shape.get('close_first') and close_at > loop.now_ms:
+            # the close request is already queued when the timers due at that very instant are collected
+            loop.advance_to(close_at - 1)
+            loop.now_ms = close_at
+        else:
+            loop.advance_to(close_at)
         in_registry_at_close = [i.name for i in zc.registry.async_get_service_infos()]
         close_task = loop.create_task(aiozc.async_close())
         n = 0
@@ -110,7 +119,8 @@ def make(shape: Dict[str, Any]) -> Any:
         # ---- afterwards: further traffic, hours of virtual time, a second close
         loop.advance_by(50)
         resp = mk_incoming(loop.now_ms, [VOCAB['P2'].make(4500, loop.now_ms, False), VOCAB['S2'].make(120, loop.now_ms, True)])
-        zc.record_manager.async_updates_from_response(resp)
+        if 'raw-listener' not in doing:  # (a response injected past the closed socket would reach an application-owned listener)
+            zc.record_manager.async_updates_from_response(resp)
         for qq in ([Q(T1, PTR)], [Q(N1, SRV, True)]):
             m = mk_query(loop.now_ms, qq, [], ('10.0.0.9', 5353), data=b'late' + str(qq).encode())
             proto.handle_query_or_defer(m, '10.0.0.9', 5353, proto.transport, ())
@@ -157,6 +167,8 @@ QUICK = {
     'deferred-tc': sh('deferred-tc', close_max=600),
     'browser': sh('browser', close_max=2000),
     'lookup': sh('lookup', close_max=1500),
+    'at-purge-tick': sh('registered', close_max=10500, close_first=True),
+    'idle-at-purge-tick': sh('raw-listener', close_max=10500, close_first=True),
 }
 THOROUGH = {
     'everything': sh('registered', 'registering', 'browser', 'lookup', close_max=800),
